@@ -41,6 +41,23 @@ MINI_WANT_OV = ("ov", {"other": "INNER-DINNER"},
                 [("main", 2, ["x"]), ("s1", 7, []), ("main2", None, [])],
                 ["3"], 5, "1-2$")
 ALSO = [None]         # a check may add a load of its own (a callable)
+CURRENT = [None]      # ("text", schema, text) | ("path", schema, path): the
+                      # outer load, set by the harness around its loads
+SAME = [0]
+SAME_RESULTS = []     # "ok" / "reject" of those nested loads; the harness
+                      # compares them with how the outer load ended
+
+
+def same_load_mismatch(outer_ok):
+    """Message when a nested run of the very same load ended differently
+    from the outer one (same schema, same text: same outcome), else None.
+    (A nested run that happens before the outer load meets a fault it has
+    itself cannot be compared: only an outer success is conclusive.)"""
+    res, SAME_RESULTS[:] = list(SAME_RESULTS), []
+    if outer_ok and "reject" in res:
+        return ("the same load, run from inside itself, was rejected "
+                "%d time(s) although it succeeds" % res.count("reject"))
+    return None
 
 
 class ReentryBroken(Exception):
@@ -83,6 +100,21 @@ def reenter():
                 raise ReentryBroken("nested handler delivered %r" % (seen,))
         if ALSO[0] is not None:
             ALSO[0]()
+        cur = CURRENT[0]
+        if cur is not None and REENTRIES[0] % 2 == 0:
+            # the very load that is in progress, once more from inside it:
+            # same schema object, same text or file, a loader of its own
+            SAME[0] += 1
+            try:
+                ov = list(cur[3]) if len(cur) > 3 and cur[3] else ()
+                if cur[0] == "text":
+                    ZConfig.loadConfigFile(cur[1], io.StringIO(cur[2]),
+                                           overrides=ov)
+                else:
+                    ZConfig.loadConfig(cur[1], cur[2], overrides=ov)
+                SAME_RESULTS.append("ok")
+            except ZConfig.ConfigurationError as e:
+                SAME_RESULTS.append("reject")
         try:
             ZConfig.loadConfigFile(_MINI[0], io.StringIO("<s>\n k x\n</s>\n"))
         except ZConfig.DataConversionError:
